@@ -45,18 +45,18 @@ SEQ = {
 # concurrent properties: workload kinds for the scheduler harness and the failure classes of
 # hist.check_run that count for the property
 SCHED = {
-    "C01": dict(kinds=["point", "split", "reuse"], classes=["nullvalue", "linearizability", "status"]),
+    "C01": dict(kinds=["point", "split", "reuse", "overwrite"], classes=["nullvalue", "linearizability", "status", "held"]),
     "C04": dict(kinds=["scan", "split", "reuse", "scanedge"], classes=["nullvalue", "linearizability", "order", "status"]),
     "C06": dict(kinds=["nodeset", "scan", "scanedge"], classes=["nodeset"]),
     "C09": dict(kinds=["split", "point", "scan", "cursor", "collapse", "collapse", "collapse"], classes=["progress", "structure", "lockorder"], trace=True, monitor="vers", lockorder=True),
-    "C07": dict(kinds=["epoch"], classes=["epoch", "nullvalue", "ledger", "progress"], trace=True, runs_scale=0.4, monitor="epoch"),
+    "C07": dict(kinds=["epoch"], classes=["epoch", "held", "nullvalue", "ledger", "progress"], trace=True, runs_scale=0.4, monitor="epoch"),
     # concurrent clauses of properties whose sequential part is checked by the seq engine
     "C10": dict(kinds=["cursor", "reuse"], classes=["nullvalue", "linearizability", "order", "status"]),
     "C08": dict(kinds=["split", "point"], classes=["structure", "ledger"]),
     "C13": dict(kinds=["storage"], classes=["storage", "structure", "ledger", "progress"]),
     "C11": dict(kinds=["point", "split", "overwrite"], classes=["leak", "ledger"]),
     "C17": dict(kinds=["version"], classes=["mutex", "stable", "versionfinal", "progress"], trace=True, monitor="vers", lockorder=False),
-    "C15": dict(kinds=["overwrite"], classes=["nullvalue", "linearizability", "status"]),
+    "C15": dict(kinds=["overwrite"], classes=["nullvalue", "linearizability", "status", "held"]),
 }
 
 ASSUME_SCHED = [
@@ -446,10 +446,64 @@ def sched_run(prop, tier, seed, replay_path=None):
     return cov, fails
 
 
+def absorb_tie(tier, seed):
+    """correspondence of Proto/Absorb (the model of the D13 repair): for each scenario the Lean model
+    enumerates the scan results possible under every interleaving of its events; every result the
+    real code produces under the scheduler must be one of them"""
+    binary, err = vlib.build_harness("scheddrv", schedeng.SCHED_DEFINES)
+    if binary is None:
+        return {"absorb_scenarios": 0}, [{"kind": "build", "detail": err, "found": False}]
+    nsc = 16 if tier == "quick" else 120
+    runs = 120 if tier == "quick" else 400
+
+    def one(sd):
+        text, pre, model = schedeng.make_absorb_scenario(sd)
+        m = subprocess.run([vlib.YAKMODEL, "absorb"], input="\n".join(model) + "\n", capture_output=True, text=True)
+        outs = [l for l in m.stdout.splitlines() if l.startswith("AOUT")]
+        if m.returncode != 0 or len(outs) != 1:
+            return {"sd": sd, "text": text, "pre": pre, "error": "yakmodel absorb: " + (m.stdout + m.stderr)[-300:], "model": set(), "seen": {}}
+        allowed = set(outs[0][5:].split("|"))
+        seen = {}
+        bad = None
+        for pol in ("pct", "random"):
+            rc, out, err2 = schedeng.run_workload(binary, text, runs, sd * 100 + 7, pol)
+            for r in hist.parse(out):
+                for h in r.h:
+                    if h["op"][0] != "scan" or not h["res"].startswith("OK"):
+                        continue
+                    w = h["res"].split()
+                    keys = [bytes.fromhex(kv.partition("=")[0]) for kv in w[2:2 + int(w[1])]]
+                    enc = ",".join(str(schedeng.absorb_num(k)) for k in keys) or "-"
+                    seen[enc] = seen.get(enc, 0) + 1
+                    if enc not in allowed and bad is None:
+                        bad = (enc, r.sched, pol)
+        return {"sd": sd, "text": text, "pre": pre, "model": allowed, "seen": seen, "bad": bad, "lines": model}
+
+    results = vlib.pmap(one, [seed * 1000 + i for i in range(nsc)])
+    fails = []
+    for r in results:
+        if r.get("error"):
+            fails.append({"kind": "absorbtie", "detail": r["error"], "found": False, "workload": r["text"], "pre": {k.hex(): v for k, v in r["pre"].items()}})
+        elif r.get("bad"):
+            enc, sch, pol = r["bad"]
+            fails.append({"kind": "absorbtie", "found": False, "workload": r["text"], "schedule": sch, "pre": {k.hex(): v for k, v in r["pre"].items()},
+                          "detail": "the real scan returned [%s], which no interleaving of the Absorb model produces (model: %s); scenario: %s" % (enc, sorted(r["model"]), r["lines"])})
+    nmodel = sum(len(r["model"]) for r in results)
+    nseen = sum(len(set(r["seen"]) & r["model"]) for r in results)
+    cov = {"absorb_scenarios": len(results), "absorb_runs": sum(sum(r["seen"].values()) for r in results),
+           "absorb_model_outcomes": nmodel, "absorb_model_outcomes_observed_on_impl": nseen,
+           "absorb_sample": (results[0]["lines"] if results else [])}
+    return cov, fails
+
+
 def check_sched(prop, tier, seed, replay_path=None):
     t0 = time.time()
     lean = lean_part(prop, tier)
     cov, fails = sched_run(prop, tier, seed, replay_path)
+    if prop == "C04" and not replay_path:
+        cov2, fails2 = absorb_tie(tier, seed)
+        cov.update(cov2)
+        fails = fails + fails2
     kf = vlib.known_findings()
     rc = 0
     nviol = 0
@@ -554,8 +608,9 @@ def check_c14(tier, seed, replay_path=None):
             cov["cas_failures"] += res["stats"].get("cas_failures", 0)
             if not sample:
                 sample = res["text"].splitlines()
-            for cls, msg, sch, found in res["fails"][:1]:
+            for cls, msg, sch, found in sorted(res["fails"], key=lambda x: 0 if x[3] else 1)[:1]:
                 fails.append({"kind": cls, "detail": msg, "found": found, "capacity": cap, "workload": res["text"], "schedule": sch})
+    fails.sort(key=lambda f: 0 if f.get("found", True) else 1)     # concrete failing executions first
     rc = 0
     for i, f in enumerate(fails):
         path = vlib.write_replay(prop, seed, 100 + i, dict(f, property=prop, replay_cmd="python3 tools/check.py C14 --replay <this file>"))
